@@ -1009,10 +1009,28 @@ func checkC10(c *Ctx) {
 	// key listed without a value is a nil Element: nil dereference while displaying), and the template scanner
 	// leaves complete [kind,start,end) triples (the fill loop indexes fmtStack[i+1], [i+2] and the argument list)
 	borrowRule(c, "C12", "C12.sync", "C10.dictsync")
+	// a copy never shares its key list with the original (a key listed without a value is a nil element)
+	borrowRule(c, "C07", "C07.adopt", "C10.adopt")
 	borrowRule(c, "C14", "C14.tmpl", "C10.tmpl")
 
 	// ---- C10.nilfield: nil-able pointer fields are dereferenced only behind a nil test
 	ruleNilFields(c, u, "C10.nilfield", func(file string) bool { return !strings.HasPrefix(file, "pkg/syntax/") })
+
+	// ---- C10.cycles: objects are shared by reference, so object graphs can be cyclic (甲之邻 = 乙; 乙之邻 = 甲): displaying
+	// an object must not recurse into its properties (unbounded recursion ends in a fatal stack overflow)
+	if g := u.ssaFunc("pkg/value", "Object.String"); g != nil {
+		bad := ""
+		for _, in := range instrsOf(g) {
+			call, isCall := in.(*ssa.Call)
+			if !isCall || !call.Call.IsInvoke() || call.Call.Method.Name() != "String" {
+				continue
+			}
+			if flowsFromDeep(call.Call.Value, func(v ssa.Value) bool { return containerFieldOf(v) == "Object.propList" }) {
+				bad = u.pos(call.Pos())
+			}
+		}
+		R.check(bad == "", "C10.cycles", "pkg/value.Object.String", u.pos(g.Pos()), "the display of an object does not descend into its property values", "Object.String() calls String() on the object's property values ("+bad+"): two objects referring to each other recurse without bound and the process dies with a fatal stack overflow that no recover can catch")
+	}
 
 	// ---- C10.nilresult: the value a module function returns together with an error is not used when the error was
 	// thrown away: `v, _ := f(); v.M()` crashes on the nil v of f's error exits
